@@ -1,4 +1,5 @@
 import ComposeVerif.Lemmas.Pipeline
+import ComposeVerif.Props.C04Stage
 /-!
 # C04 — files and `---` documents through the composed pipeline
 
@@ -10,6 +11,24 @@ correspondence streams `pipeline.load` and `pipeline.loadY`):
   document of a file to the next except the model built so far;
 * a document without `!reset` / `!override` tags read from YAML text goes through the pipeline exactly like its
   decoded tree handed over as `ConfigFile.Config` (`untagged_document_is_its_tree`, `untagged_documents_are_trees`).
+
+Round 6:
+
+* **the load is a left fold** (`processNodes_foldl`, `processFiles_foldl`, `processDocs_foldl`, `loadY_is_left_fold`,
+  `processNodes_snoc`, `processDocs_snoc`): loading `f1..fn` *is* "apply each later one onto the result so far",
+  starting from the empty model; a failure of one step is the failure of the load.  The bracketing matters — the
+  override rules are not associative (`Neg/C04Whole.lean`, `merge_not_associative`).
+* **single entry per key, through the composed pipeline** (`mergeStages_deduplicated`, `processDoc_deduplicated`,
+  `processNode_deduplicated`, `processNodes_deduplicated`, `processFiles_deduplicated`, `accumulated_model_deduplicated`):
+  whatever interpolation, extends, schema validation, canonicalisation and omit-empty did, the model accumulated
+  after every document is a fixed point of `EnforceUnicity` — now for the *modelled* stages, not a parameter `post`.
+* **`!reset` / `!override` over the composed pipeline**: a tagged document is its stripped tree applied to the model
+  from which the recorded paths were deleted (`tagged_document_is_stripped_tree_after_apply`); `Apply` is idempotent
+  (`applyNull_idem`) and depends only on the *set* of recorded paths (`applyNull_congr`, `applyNull_perm`,
+  `applyNull_dup`): neither the order in which the tags appear in the document nor a path recorded twice matters;
+  with interpolation and extends off the step refines C04's `Reset.docStep` (`processNode_refines_docStep`), so the
+  top-level `!reset` / `!override` laws hold for the model that enters schema validation
+  (`processNode_reset_removes_partial`, `processNode_override_replaces_partial`).
 -/
 namespace CV.C04.Whole
 open CV CV.Pipeline
@@ -79,5 +98,499 @@ theorem loadY_untagged_eq_load (c : Cfg) (docs : List Val.KVs) :
 example : (Reset.readDoc (.map .none [("services", .map .none [("a", .map .none [("image", .scalar .reset (.str "x"))])])])).2
     = [["services", "a", "image"]] := by decide
 example : untagged (.map .none [("services", .map .none [("a", .map .none [("image", .scalar .none (.str "x"))])])]) = true := by decide
+
+/-! ## Round 6 — the load is a left fold -/
+
+/-- a failed load stays failed: the remaining files are not looked at -/
+theorem foldl_bind_err {α : Type} (g : Val → α → Out Val) (e : String) : ∀ l : List α,
+    l.foldl (fun (acc : Out Val) x => acc.bind fun d => g d x) (.err e) = .err e
+  | [] => rfl
+  | _ :: r => by simpa [List.foldl, Out.bind] using foldl_bind_err g e r
+
+theorem foldl_bind_panic {α : Type} (g : Val → α → Out Val) (s : String) : ∀ l : List α,
+    l.foldl (fun (acc : Out Val) x => acc.bind fun d => g d x) (.panic s) = .panic s
+  | [] => rfl
+  | _ :: r => by simpa [List.foldl, Out.bind] using foldl_bind_panic g s r
+
+/-- **documents: "apply each later one onto the result so far"** -/
+theorem processNodes_foldl (c : Cfg) : ∀ (ns : List Reset.YNode) (dict : Val),
+    processNodes c dict ns = ns.foldl (fun (acc : Out Val) n => acc.bind fun d => processNode c d n) (.ok dict)
+  | [], _ => rfl
+  | n :: r, dict => by
+    simp only [processNodes, List.foldl, Out.bind]
+    cases processNode c dict n with
+    | ok d => exact processNodes_foldl c r d
+    | err e => exact (foldl_bind_err (processNode c) e r).symm
+    | panic s => exact (foldl_bind_panic (processNode c) s r).symm
+
+/-- **files: the same, a file being the fold of its documents** -/
+theorem processFiles_foldl (c : Cfg) : ∀ (files : List (List Reset.YNode)) (dict : Val),
+    processFiles c dict files = files.foldl (fun (acc : Out Val) f => acc.bind fun d => processNodes c d f) (.ok dict)
+  | [], _ => rfl
+  | f :: r, dict => by
+    simp only [processFiles, List.foldl, Out.bind]
+    cases processNodes c dict f with
+    | ok d => exact processFiles_foldl c r d
+    | err e => exact (foldl_bind_err (processNodes c) e r).symm
+    | panic s => exact (foldl_bind_panic (processNodes c) s r).symm
+
+/-- … and for files handed over as parsed trees -/
+theorem processDocs_foldl (c : Cfg) : ∀ (docs : List Val.KVs) (dict : Val),
+    processDocs c dict docs = docs.foldl (fun (acc : Out Val) d => acc.bind fun m => processDoc c m d) (.ok dict)
+  | [], _ => rfl
+  | d :: r, dict => by
+    simp only [processDocs, List.foldl, Out.bind]
+    cases processDoc c dict d with
+    | ok m => exact processDocs_foldl c r m
+    | err e => exact (foldl_bind_err (processDoc c) e r).symm
+    | panic s => exact (foldl_bind_panic (processDoc c) s r).symm
+
+/-- **the whole load of `f1..fn`**: the left fold of the per-file step from the empty model, then the stages that run
+once (`finishModel`, `finishLoad`) -/
+theorem loadY_is_left_fold (c : Cfg) (files : List (List Reset.YNode)) (h : files ≠ []) :
+    loadY c files =
+      ((files.foldl (fun (acc : Out Val) f => acc.bind fun d => processNodes c d f) (.ok (.map []))).bind (finishModel c)).bind
+        (finishLoad c) := by
+  have e : files.isEmpty = false := by cases files <;> simp_all
+  simp only [loadY, e, loadYamlModelY, processFiles_foldl]
+  rfl
+
+/-- one more document at the end = the load so far, then that document applied onto it -/
+theorem processNodes_snoc (c : Cfg) (ns : List Reset.YNode) (n : Reset.YNode) (dict : Val) :
+    processNodes c dict (ns ++ [n]) = (processNodes c dict ns).bind fun d => processNode c d n := by
+  rw [processNodes_append]
+  cases processNodes c dict ns with
+  | ok d =>
+    simp only [processNodes, Out.bind]
+    cases processNode c d n <;> rfl
+  | err e => rfl
+  | panic s => rfl
+
+theorem processDocs_snoc (c : Cfg) (docs : List Val.KVs) (d : Val.KVs) (dict : Val) :
+    processDocs c dict (docs ++ [d]) = (processDocs c dict docs).bind fun m => processDoc c m d := by
+  rw [processDocs_foldl, List.foldl_append, ← processDocs_foldl]
+  rfl
+
+/-! ## Round 6 — a single entry per key after every document, for the modelled stages -/
+
+theorem pbind_ok {α β : Type} {x : Out α} {f : α → Out β} {b : β} (h : x.bind f = .ok b) :
+    ∃ a, x = .ok a ∧ f a = .ok b := by
+  cases x with
+  | ok a => exact ⟨a, rfl, h⟩
+  | err e => simp [Out.bind] at h
+  | panic s => simp [Out.bind] at h
+
+theorem ofMerge_ok {α : Type} {st : String} {r : Merge.Out α} {a : α} (h : ofMerge st r = .ok a) : r = .ok a := by
+  cases r <;> simp_all [ofMerge]
+
+/-- `processRawYaml` ends with `EnforceUnicity`: whatever it is given, what it returns is a fixed point -/
+theorem mergeStages_deduplicated (c : Cfg) (dict : Val) (cfg : Val.KVs) (r : Val)
+    (h : mergeStages c dict cfg = .ok r) : Unicity.enforceTop r = .ok r := by
+  unfold mergeStages at h
+  obtain ⟨_, _, h⟩ := pbind_ok h
+  obtain ⟨_, _, h⟩ := pbind_ok h
+  obtain ⟨_, _, h⟩ := pbind_ok h
+  obtain ⟨_, _, h⟩ := pbind_ok h
+  obtain ⟨d, _, h⟩ := pbind_ok h
+  exact CV.C04.enforceTop_idem d r (ofMerge_ok h)
+
+theorem processDoc_deduplicated (c : Cfg) (dict : Val) (cfg : Val.KVs) (r : Val)
+    (h : processDoc c dict cfg = .ok r) : Unicity.enforceTop r = .ok r := by
+  unfold processDoc at h
+  obtain ⟨_, _, h⟩ := pbind_ok h
+  obtain ⟨_, _, h⟩ := pbind_ok h
+  exact mergeStages_deduplicated c _ _ r h
+
+theorem processNode_deduplicated (c : Cfg) (dict : Val) (n : Reset.YNode) (r : Val)
+    (h : processNode c dict n = .ok r) : Unicity.enforceTop r = .ok r := by
+  unfold processNode at h
+  generalize Reset.readDoc n = rd at h
+  obtain ⟨v, paths⟩ := rd
+  cases v with
+  | map cfg =>
+    simp only at h
+    obtain ⟨_, _, h⟩ := pbind_ok h
+    obtain ⟨_, _, h⟩ := pbind_ok h
+    exact mergeStages_deduplicated c _ _ r h
+  | _ => simp at h
+
+theorem processNodes_deduplicated (c : Cfg) : ∀ (ns : List Reset.YNode) (dict r : Val),
+    Unicity.enforceTop dict = .ok dict → processNodes c dict ns = .ok r → Unicity.enforceTop r = .ok r
+  | [], dict, r, hd, h => by simp only [processNodes, Out.ok.injEq] at h; subst h; exact hd
+  | n :: ns, dict, r, _, h => by
+    simp only [processNodes] at h
+    cases hn : processNode c dict n with
+    | ok d => rw [hn] at h; exact processNodes_deduplicated c ns d r (processNode_deduplicated c dict n d hn) h
+    | err e => simp [hn] at h
+    | panic s => simp [hn] at h
+
+theorem processFiles_deduplicated (c : Cfg) : ∀ (files : List (List Reset.YNode)) (dict r : Val),
+    Unicity.enforceTop dict = .ok dict → processFiles c dict files = .ok r → Unicity.enforceTop r = .ok r
+  | [], dict, r, hd, h => by simp only [processFiles, Out.ok.injEq] at h; subst h; exact hd
+  | f :: fs, dict, r, hd, h => by
+    simp only [processFiles] at h
+    cases hn : processNodes c dict f with
+    | ok d => rw [hn] at h; exact processFiles_deduplicated c fs d r (processNodes_deduplicated c f dict d hd hn) h
+    | err e => simp [hn] at h
+    | panic s => simp [hn] at h
+
+/-- **the model `loadYamlModel` has accumulated when the loop over the files ends holds a single entry per key in
+every keyed list** — any number of files and documents, any option flags, with the modelled interpolation, extends,
+schema, canonicalisation and omit-empty stages in between -/
+theorem accumulated_model_deduplicated (c : Cfg) (files : List (List Reset.YNode)) (r : Val)
+    (h : processFiles c (.map []) files = .ok r) : Unicity.enforceTop r = .ok r :=
+  processFiles_deduplicated c files _ r (by rfl) h
+
+/-! ## Round 6 — `!reset` / `!override` over the composed pipeline -/
+
+/-- **a tagged document** goes through the pipeline as its stripped tree (the `!reset` nodes dropped, the `!override`
+nodes kept) applied to the model so far *from which the recorded paths were deleted first* -/
+theorem tagged_document_is_stripped_tree_after_apply (c : Cfg) (dict : Val) (n : Reset.YNode) (cfg : Val.KVs)
+    (paths : List TPath) (h : Reset.readDoc n = (.map cfg, paths)) :
+    processNode c dict n = processDoc c (Reset.applyNull paths dict TPath.root) cfg := by
+  simp only [processNode, h, processDoc]
+
+open CV.Reset in
+mutual
+/-- `Apply` looks at the recorded paths only through "does some recorded path match this position" -/
+theorem applyNull_congr (ps qs : List TPath) (h : ∀ q, matchesAny ps q = matchesAny qs q) :
+    ∀ (v : Val) (p : TPath), applyNull ps v p = applyNull qs v p
+  | .null, _ => by simp [applyNull]
+  | .bool _, _ => by simp [applyNull]
+  | .int _, _ => by simp [applyNull]
+  | .float _, _ => by simp [applyNull]
+  | .str _, _ => by simp [applyNull]
+  | .seq xs, p => by simp [applyNull, applySeq_congr ps qs h xs p 0]
+  | .map kvs, p => by simp [applyNull, applyKVs_congr ps qs h kvs p]
+theorem applyKVs_congr (ps qs : List TPath) (h : ∀ q, matchesAny ps q = matchesAny qs q) :
+    ∀ (kvs : Val.KVs) (p : TPath), applyKVs ps kvs p = applyKVs qs kvs p
+  | [], _ => by simp [applyKVs]
+  | (k, e) :: r, p => by simp [applyKVs, h, applyNull_congr ps qs h e _, applyKVs_congr ps qs h r p]
+theorem applySeq_congr (ps qs : List TPath) (h : ∀ q, matchesAny ps q = matchesAny qs q) :
+    ∀ (xs : List Val) (p : TPath) (i : Nat), applySeq ps xs p i = applySeq qs xs p i
+  | [], _, _ => by simp [applySeq]
+  | e :: r, p, i => by simp [applySeq, h, applyNull_congr ps qs h e _, applySeq_congr ps qs h r p (i + 1)]
+end
+
+/-- the order in which the tags were met in the document is irrelevant -/
+theorem applyNull_perm (ps qs : List TPath) (h : ps.Perm qs) (v : Val) (p : TPath) :
+    Reset.applyNull ps v p = Reset.applyNull qs v p :=
+  applyNull_congr ps qs (fun q => by simp only [Reset.matchesAny]; exact h.any_eq) v p
+
+/-- a path recorded twice (an anchor used at two places resolving to one path, a processor that saw the document
+twice) deletes nothing more -/
+theorem applyNull_dup (ps : List TPath) (v : Val) (p : TPath) :
+    Reset.applyNull (ps ++ ps) v p = Reset.applyNull ps v p :=
+  applyNull_congr _ _ (fun q => by simp [Reset.matchesAny, List.any_append]) v p
+
+open CV.Reset in
+mutual
+/-- `Apply` is idempotent: what it leaves matches no recorded path any more -/
+theorem applyNull_idem (ps : List TPath) : ∀ (v : Val) (p : TPath), applyNull ps (applyNull ps v p) p = applyNull ps v p
+  | .null, _ => by simp [applyNull]
+  | .bool _, _ => by simp [applyNull]
+  | .int _, _ => by simp [applyNull]
+  | .float _, _ => by simp [applyNull]
+  | .str _, _ => by simp [applyNull]
+  | .seq xs, p => by simp [applyNull, applySeq_idem ps xs p 0]
+  | .map kvs, p => by simp [applyNull, applyKVs_idem ps kvs p]
+theorem applyKVs_idem (ps : List TPath) : ∀ (kvs : Val.KVs) (p : TPath), applyKVs ps (applyKVs ps kvs p) p = applyKVs ps kvs p
+  | [], _ => by simp [applyKVs]
+  | (k, e) :: r, p => by
+    by_cases hm : matchesAny ps (Merge.next p k) = true
+    · simp [applyKVs, hm, applyKVs_idem ps r p]
+    · simp [applyKVs, hm, applyNull_idem ps e _, applyKVs_idem ps r p]
+theorem applySeq_idem (ps : List TPath) : ∀ (xs : List Val) (p : TPath) (i : Nat),
+    applySeq ps (applySeq ps xs p i) p i = applySeq ps xs p i
+  | [], _, _ => by simp [applySeq]
+  | e :: r, p, i => by
+    by_cases hm : matchesAny ps (Merge.next p ("[" ++ i.repr ++ "]")) = true
+    · simp [applySeq, hm, applySeq_idem ps r p (i + 1)]
+    · simp [applySeq, hm, applyNull_idem ps e _, applySeq_idem ps r p (i + 1)]
+end
+
+/-- `Apply` on the empty model deletes nothing -/
+theorem applyNull_empty (ps : List TPath) : Reset.applyNull ps (.map []) TPath.root = .map [] := by
+  simp [Reset.applyNull, Reset.applyKVs]
+
+/-- **tags in the first document only strip**: with nothing loaded yet a `!reset` node is simply absent and an
+`!override` node is its plain value — the first file of a load (and a file loaded alone) goes through the pipeline as
+its stripped tree -/
+theorem first_document_tags_only_strip (c : Cfg) (n : Reset.YNode) (cfg : Val.KVs) (paths : List TPath)
+    (h : Reset.readDoc n = (.map cfg, paths)) : processNode c (.map []) n = processDoc c (.map []) cfg := by
+  rw [tagged_document_is_stripped_tree_after_apply c _ n cfg paths h, applyNull_empty]
+
+/-- the stages of `processRawYaml` after the first `EnforceUnicity` -/
+def restStages (c : Cfg) (u : Val) : Out Val :=
+  (schemaStage c.opts u).bind fun d =>
+  (ofShort (Short.canonical c.opts.skipInterpolation d)).bind fun d =>
+  (omitEmpty c.omitPats d).bind fun d =>
+  ofMerge "unicity2" (Unicity.enforceTop d)
+
+/-- **the composed step refines C04's `docStep`**: with interpolation and extends switched off, a document succeeds
+through `processNode` exactly when C04's reset → merge → unicity step succeeds and the remaining stages accept its
+result -/
+theorem processNode_refines_docStep (c : Cfg) (hi : c.opts.skipInterpolation = true) (he : c.opts.skipExtends = true)
+    (dict : Val) (es : List (String × Reset.YNode)) (r : Val) :
+    processNode c dict (.map .none es) = .ok r ↔
+      ∃ u, Reset.docStep .ok dict (.map .none es) = .ok u ∧ restStages c u = .ok r := by
+  simp only [processNode, Reset.readDoc, Reset.resolve, Reset.decode, interpStage, hi, extendsStage, he, if_true,
+    Out.bind, mergeStages, Reset.docStep, restStages]
+  cases Merge.merge (Reset.applyNull (Reset.resolveMap es TPath.root).2 dict TPath.root)
+      (.map (Reset.decodeKV (Reset.resolveMap es TPath.root).1)) with
+  | ok m =>
+    simp only [ofMerge, Out.bind, Merge.Out.bind]
+    cases Unicity.enforceTop m with
+    | ok u => simp [ofMerge, Out.bind, Merge.Out.bind]
+    | err e => simp [ofMerge, Out.bind, Merge.Out.bind]
+    | panic s => simp [ofMerge, Out.bind, Merge.Out.bind]
+  | err e => simp [ofMerge, Out.bind, Merge.Out.bind]
+  | panic s => simp [ofMerge, Out.bind, Merge.Out.bind]
+
+/-- `!reset` on a top-level entry, through the composed step: the model that enters schema validation and
+canonicalisation does not have the key, whatever the earlier files held there.  (`_partial`: the full statement —
+the key is absent from the *returned* model `r` — additionally needs "canonicalisation and omit-empty add no top-level
+key", which is not proved here; the split oracle observes it on the real loader.) -/
+theorem processNode_reset_removes_partial (c : Cfg) (hi : c.opts.skipInterpolation = true) (he : c.opts.skipExtends = true)
+    (a : Val.KVs) (es : List (String × Reset.YNode)) (k : String) (x : Reset.YNode) (r : Val)
+    (ht : x.tag = .reset) (hnd : (es.map Prod.fst).Nodup) (hmem : (k, x) ∈ es)
+    (h : processNode c (.map a) (.map .none es) = .ok r) :
+    ∃ u, Reset.docStep .ok (.map a) (.map .none es) = .ok (.map u) ∧ Val.lookup k u = none ∧ restStages c (.map u) = .ok r := by
+  obtain ⟨u, hu, hr⟩ := (processNode_refines_docStep c hi he _ es r).1 h
+  obtain ⟨m, r', _, _, heq⟩ := CV.C04.docStep_root a es u hu
+  subst heq
+  exact ⟨r', hu, CV.C04.docStep_reset_removes a es k x r' ht hnd hmem hu, hr⟩
+
+/-- `!override` on a top-level entry, through the composed step: the key is in the model that enters schema
+validation, and it got there from the later document alone (`override_replaces`) -/
+theorem processNode_override_replaces_partial (c : Cfg) (hi : c.opts.skipInterpolation = true) (he : c.opts.skipExtends = true)
+    (a : Val.KVs) (es : List (String × Reset.YNode)) (k : String) (x : Reset.YNode) (r : Val)
+    (ht : x.tag = .override) (hnd : (es.map Prod.fst).Nodup) (hmem : (k, x) ∈ es)
+    (h : processNode c (.map a) (.map .none es) = .ok r) :
+    ∃ u, Reset.docStep .ok (.map a) (.map .none es) = .ok (.map u) ∧ k ∈ Val.keys u ∧ restStages c (.map u) = .ok r := by
+  obtain ⟨u, hu, hr⟩ := (processNode_refines_docStep c hi he _ es r).1 h
+  obtain ⟨m, r', _, _, heq⟩ := CV.C04.docStep_root a es u hu
+  subst heq
+  exact ⟨r', hu, CV.C04.docStep_override_replaces a es k x r' ht hnd hmem hu, hr⟩
+
+/-! ## Round 6 — the remaining stages add no top-level key, so a `!reset` key stays out of the returned model -/
+
+theorem erase_keys_sub (k0 : String) : ∀ (kvs : Val.KVs) (k : String), k ∈ Val.keys (Val.erase k0 kvs) → k ∈ Val.keys kvs
+  | [], _, h => by simp [Val.erase, Val.keys] at h
+  | (k', v') :: r, k, h => by
+    simp only [Val.erase] at h
+    split at h
+    · have := erase_keys_sub k0 r k h
+      simp only [Val.keys, List.map_cons, List.mem_cons] at this ⊢
+      exact Or.inr this
+    · simp only [Val.keys, List.map_cons, List.mem_cons] at h ⊢
+      rcases h with h | h
+      · exact Or.inl h
+      · exact Or.inr (erase_keys_sub k0 r k h)
+
+theorem schemaStage_top_keys (o : Opts) (u : Val.KVs) (d : Val) (h : schemaStage o (.map u) = .ok d) :
+    ∃ kvs, d = .map kvs ∧ ∀ k, k ∈ Val.keys kvs → k ∈ Val.keys u := by
+  unfold schemaStage at h
+  split at h
+  · cases h; exact ⟨u, rfl, fun _ hk => hk⟩
+  · split at h
+    · simp only [Out.ok.injEq] at h
+      subst h
+      exact ⟨_, rfl, erase_keys_sub "version" u⟩
+    · cases h
+
+theorem transformKVs_keys (ign : Bool) (p : TPath) : ∀ (m r : Val.KVs),
+    Short.transformKVs ign p m = .ok r → Val.keys r = Val.keys m
+  | [], r, h => by simp only [Short.transformKVs, Short.Out.ok.injEq] at h; subst h; rfl
+  | (k, e) :: m, r, h => by
+    simp only [Short.transformKVs] at h
+    split at h
+    · split at h
+      · rename_i r' hr
+        simp only [Short.Out.ok.injEq] at h
+        subst h
+        simp only [Val.keys, List.map_cons, List.cons.injEq, true_and]
+        exact transformKVs_keys ign p m r' hr
+      · cases h
+      · cases h
+    · cases h
+    · cases h
+
+theorem transformers_root : TPath.firstMatch CV.Gen.transformers TPath.root = none := by decide
+
+theorem canonical_top_keys (ign : Bool) (kvs : Val.KVs) (d : Val) (h : Short.canonical ign (.map kvs) = .ok d) :
+    ∃ r, d = .map r ∧ Val.keys r = Val.keys kvs := by
+  simp only [Short.canonical, Short.transform, transformers_root, Short.recursesOnMap, Short.postMap, Short.bindOut] at h
+  simp only [Bool.or_eq_true, decide_eq_true_eq, true_or, if_true] at h
+  cases ht : Short.transformKVs ign TPath.root kvs with
+  | ok r =>
+    rw [ht] at h
+    simp at h
+    exact ⟨r, h.symm, transformKVs_keys ign _ kvs r ht⟩
+  | err e => rw [ht] at h; simp at h
+  | panic s => rw [ht] at h; simp at h
+
+theorem toKVs_keys : ∀ m : List (String × C01.GoVal), (toKVs m).map Prod.fst = m.map Prod.fst
+  | [] => by simp [toKVs]
+  | (k, v) :: r => by simp [toKVs, toKVs_keys r]
+
+theorem ofKVs_keys : ∀ m : Val.KVs, (ofKVs m).map Prod.fst = m.map Prod.fst
+  | [] => by simp [ofKVs]
+  | (k, v) :: r => by simp [ofKVs, ofKVs_keys r]
+
+theorem omitKVs_keys_sub (pats : List (List String)) (p : TPath) : ∀ (m : List (String × C01.GoVal)) (k : String),
+    k ∈ (C01.omitKVs pats m p).map Prod.fst → k ∈ m.map Prod.fst
+  | [], _, h => by simp [C01.omitKVs] at h
+  | (k', v) :: r, k, h => by
+    simp only [C01.omitKVs] at h
+    split at h
+    · simp only [List.map_cons, List.mem_cons]
+      exact Or.inr (omitKVs_keys_sub pats p r k h)
+    · simp only [List.map_cons, List.mem_cons] at h ⊢
+      rcases h with h | h
+      · exact Or.inl h
+      · exact Or.inr (omitKVs_keys_sub pats p r k h)
+
+theorem omitEmpty_top_keys (pats : List (List String)) (kvs : Val.KVs) (d : Val) (h : omitEmpty pats (.map kvs) = .ok d) :
+    ∃ r, d = .map r ∧ ∀ k, k ∈ Val.keys r → k ∈ Val.keys kvs := by
+  simp only [omitEmpty, C01.omitEmptyTop, C01.omitEmpty, Out.ok.injEq] at h
+  subst h
+  refine ⟨_, rfl, fun k hk => ?_⟩
+  simp only [Val.keys, toKVs_keys] at hk
+  have := omitKVs_keys_sub pats TPath.root _ k hk
+  simpa [Val.keys, ofKVs_keys] using this
+
+/-- **schema validation, canonicalisation, omit-empty and the second unicity pass add no top-level key** -/
+theorem restStages_no_new_top_key (c : Cfg) (u : Val.KVs) (r : Val) (h : restStages c (.map u) = .ok r) :
+    ∃ kvs, r = .map kvs ∧ ∀ k, k ∈ Val.keys kvs → k ∈ Val.keys u := by
+  unfold restStages at h
+  obtain ⟨d1, h1, h⟩ := pbind_ok h
+  obtain ⟨d2, h2, h⟩ := pbind_ok h
+  obtain ⟨d3, h3, h⟩ := pbind_ok h
+  obtain ⟨k1, rfl, s1⟩ := schemaStage_top_keys c.opts u d1 h1
+  have h2' : Short.canonical c.opts.skipInterpolation (.map k1) = .ok d2 := by
+    cases hc : Short.canonical c.opts.skipInterpolation (.map k1) <;> simp_all [ofShort]
+  obtain ⟨k2, rfl, s2⟩ := canonical_top_keys _ k1 d2 h2'
+  obtain ⟨k3, rfl, s3⟩ := omitEmpty_top_keys _ k2 d3 h3
+  have h4 := ofMerge_ok h
+  simp only [Unicity.enforceTop, Unicity.enforce] at h4
+  obtain ⟨m, hm, h4⟩ := CV.Unicity.out_bind_ok h4
+  simp only [Merge.Out.ok.injEq] at h4
+  subst h4
+  refine ⟨m, rfl, fun k hk => ?_⟩
+  rw [CV.C04.enforceKVs_keys _ _ _ hm] at hk
+  exact s1 k (s2 ▸ s3 k hk)
+
+/-- **`!reset` on a top-level entry removes it from the model the composed step returns** — tag resolution, `Apply`,
+merge, unicity, schema validation, canonicalisation, omit-empty, unicity: whatever the earlier files held at `k`,
+the returned model has no `k` (interpolation and extends off) -/
+theorem processNode_reset_removes (c : Cfg) (hi : c.opts.skipInterpolation = true) (he : c.opts.skipExtends = true)
+    (a : Val.KVs) (es : List (String × Reset.YNode)) (k : String) (x : Reset.YNode) (r : Val)
+    (ht : x.tag = .reset) (hnd : (es.map Prod.fst).Nodup) (hmem : (k, x) ∈ es)
+    (h : processNode c (.map a) (.map .none es) = .ok r) : ∃ kvs, r = .map kvs ∧ Val.lookup k kvs = none := by
+  obtain ⟨u, _, hk, hr⟩ := processNode_reset_removes_partial c hi he a es k x r ht hnd hmem h
+  obtain ⟨kvs, rfl, hs⟩ := restStages_no_new_top_key c u _ hr
+  refine ⟨kvs, rfl, ?_⟩
+  rw [CV.Merge.lookup_eq_none_iff] at hk ⊢
+  exact fun hin => hk (hs k hin)
+
+/-! ## Round 6 — `!override` at full strength: which top-level keys the remaining stages can drop -/
+
+theorem erase_keys_mem (k0 : String) : ∀ (kvs : Val.KVs) (k : String), k ≠ k0 → k ∈ Val.keys kvs → k ∈ Val.keys (Val.erase k0 kvs)
+  | [], _, _, h => by simp [Val.keys] at h
+  | (k', v') :: r, k, hne, h => by
+    simp only [Val.keys, List.map_cons, List.mem_cons] at h
+    simp only [Val.erase]
+    split
+    · rename_i hk
+      rcases h with h | h
+      · exact absurd (h.trans hk.symm) hne
+      · exact erase_keys_mem k0 r k hne h
+    · simp only [Val.keys, List.map_cons, List.mem_cons]
+      rcases h with h | h
+      · exact Or.inl h
+      · exact Or.inr (erase_keys_mem k0 r k hne h)
+
+theorem schemaStage_keeps_key (o : Opts) (u : Val.KVs) (d : Val) (k : String) (hk : k ≠ "version")
+    (h : schemaStage o (.map u) = .ok d) (hin : k ∈ Val.keys u) : ∃ kvs, d = .map kvs ∧ k ∈ Val.keys kvs := by
+  unfold schemaStage at h
+  split at h
+  · cases h; exact ⟨u, rfl, hin⟩
+  · split at h
+    · simp only [Out.ok.injEq] at h
+      subst h
+      exact ⟨_, rfl, erase_keys_mem "version" u k hk hin⟩
+    · cases h
+
+/-- every pattern of the omit-empty table has at least two parts (`services.*.…`): nothing is omitted at the top level
+(the root path is the one-part path `""`, which a one-part pattern `*` would match) -/
+theorem mustOmit_root (pats : List (List String)) (h : ∀ pat ∈ pats, 2 ≤ pat.length) : C01.mustOmit pats TPath.root = false := by
+  simp only [C01.mustOmit, List.any_eq_false]
+  intro pat hp
+  have := h pat hp
+  match pat, this with
+  | a :: b :: r, _ => simp [TPath.root, TPath.pmatch]
+
+theorem omitKVs_keys_eq (pats : List (List String)) (p : TPath) (h : C01.mustOmit pats p = false) :
+    ∀ m : List (String × C01.GoVal), (C01.omitKVs pats m p).map Prod.fst = m.map Prod.fst
+  | [] => by simp [C01.omitKVs]
+  | (k, v) :: r => by simp [C01.omitKVs, h, omitKVs_keys_eq pats p h r]
+
+theorem omitEmpty_top_keys_eq (pats : List (List String)) (hp : ∀ pat ∈ pats, 2 ≤ pat.length) (kvs : Val.KVs) (d : Val)
+    (h : omitEmpty pats (.map kvs) = .ok d) : ∃ r, d = .map r ∧ Val.keys r = Val.keys kvs := by
+  simp only [omitEmpty, C01.omitEmptyTop, C01.omitEmpty, Out.ok.injEq] at h
+  subst h
+  refine ⟨_, rfl, ?_⟩
+  simp only [Val.keys, toKVs_keys, omitKVs_keys_eq pats TPath.root (mustOmit_root pats hp), ofKVs_keys]
+
+/-- every top-level key other than `version` survives schema validation, canonicalisation, omit-empty (no pattern of
+its table is shorter than two parts) and the second unicity pass -/
+theorem restStages_keeps_top_key (c : Cfg) (hp : ∀ pat ∈ c.omitPats, 2 ≤ pat.length) (u : Val.KVs) (r : Val) (k : String)
+    (hk : k ≠ "version") (hin : k ∈ Val.keys u) (h : restStages c (.map u) = .ok r) :
+    ∃ kvs, r = .map kvs ∧ k ∈ Val.keys kvs := by
+  unfold restStages at h
+  obtain ⟨d1, h1, h⟩ := pbind_ok h
+  obtain ⟨d2, h2, h⟩ := pbind_ok h
+  obtain ⟨d3, h3, h⟩ := pbind_ok h
+  obtain ⟨k1, rfl, s1⟩ := schemaStage_keeps_key c.opts u d1 k hk h1 hin
+  have h2' : Short.canonical c.opts.skipInterpolation (.map k1) = .ok d2 := by
+    cases hc : Short.canonical c.opts.skipInterpolation (.map k1) <;> simp_all [ofShort]
+  obtain ⟨k2, rfl, s2⟩ := canonical_top_keys _ k1 d2 h2'
+  obtain ⟨k3, rfl, s3⟩ := omitEmpty_top_keys_eq _ hp k2 d3 h3
+  have h4 := ofMerge_ok h
+  simp only [Unicity.enforceTop, Unicity.enforce] at h4
+  obtain ⟨m, hm, h4⟩ := CV.Unicity.out_bind_ok h4
+  simp only [Merge.Out.ok.injEq] at h4
+  subst h4
+  refine ⟨m, rfl, ?_⟩
+  rw [CV.C04.enforceKVs_keys _ _ _ hm, s3, s2]
+  exact s1
+
+/-- **`!override` on a top-level entry, through all stages of the composed step**: the key is in the returned model
+(it came from the later document alone: `override_replaces`).  Hypotheses, both necessary: the key is not `version`
+(schema validation deletes it) and every pattern of the omit-empty table has at least two parts (true of `loader.omitempty`: all start with `services.*.`). -/
+theorem processNode_override_replaces (c : Cfg) (hi : c.opts.skipInterpolation = true) (he : c.opts.skipExtends = true)
+    (hp : ∀ pat ∈ c.omitPats, 2 ≤ pat.length)
+    (a : Val.KVs) (es : List (String × Reset.YNode)) (k : String) (x : Reset.YNode) (r : Val) (hk : k ≠ "version")
+    (ht : x.tag = .override) (hnd : (es.map Prod.fst).Nodup) (hmem : (k, x) ∈ es)
+    (h : processNode c (.map a) (.map .none es) = .ok r) : ∃ kvs, r = .map kvs ∧ k ∈ Val.keys kvs := by
+  obtain ⟨u, _, hin, hr⟩ := processNode_override_replaces_partial c hi he a es k x r ht hnd hmem h
+  exact restStages_keeps_top_key c hp u r k hk hin hr
+
+/-- non-vacuity of the hypotheses of `processNode_reset_removes` / `processNode_refines_docStep`: a configuration with
+interpolation, extends and validation off, a base model with `services` and `volumes`, a document that resets
+`volumes` — the composed step succeeds and the returned model has no `volumes` -/
+def exCfg : Cfg :=
+  { opts := { skipInterpolation := true, skipValidation := true, skipExtends := true }
+    interp := { table := [], fp := { f64 := fun _ => none, f32 := fun _ => none }, env := fun _ => none }
+    paths := { wd := [], home := none }
+    env := [], projectName := "p", clean := id, omitPats := [["services", "*", "dns"]] }
+
+example : ∀ pat ∈ exCfg.omitPats, 2 ≤ pat.length := by decide
+
+example : processNode exCfg
+    (.map [("services", .map [("web", .map [("image", .str "nginx")])]), ("volumes", .map [("data", .map [])])])
+    (.map .none [("volumes", .scalar .reset .null), ("services", .map .none [("web", .map .none [("command", .seq .override [.scalar .none (.str "run")])])])])
+    = .ok (.map [("services", .map [("web", .map [("image", .str "nginx"), ("command", .seq [.str "run"])])])]) := by rfl
 
 end CV.C04.Whole
